@@ -215,7 +215,7 @@ theorem rows_len_nonneg {input : List Scaffold} {p : Fragment} (hf : PieceFacts 
   exact fun x hx => hlen sc hsc x (hinf.subset hx)
 
 /-- the premise formed for piece `b` of a site (the contig is its first row) is quiet -/
-theorem quiet_b {input ptx : List Scaffold} {err : Int} (hd : DeepCut input ptx err) (x : Site) (hx : SiteOk input ptx err x)
+theorem quiet_b {input ptx : List Scaffold} {err : Int} (hd : DeepBase input ptx err) (x : Site) (hx : SiteOk input ptx err x)
     (prems : List (Key × List Premise)) (hq : PremsQ (expectedStore input ptx) err prems) :
     ∃ prems', addPremise (expectedStore input ptx) prems x.frag x.b = .ok prems' ∧
       PremsQ (expectedStore input ptx) err prems' := by
@@ -241,7 +241,7 @@ theorem quiet_b {input ptx : List Scaffold} {err : Int} (hd : DeepCut input ptx 
     cases h0
 
 /-- the premise formed for piece `a` of a site (the contig is its last row) is quiet -/
-theorem quiet_a {input ptx : List Scaffold} {err : Int} (hd : DeepCut input ptx err) (x : Site) (hx : SiteOk input ptx err x)
+theorem quiet_a {input ptx : List Scaffold} {err : Int} (hd : DeepBase input ptx err) (x : Site) (hx : SiteOk input ptx err x)
     (prems : List (Key × List Premise)) (hq : PremsQ (expectedStore input ptx) err prems) :
     ∃ prems', addPremise (expectedStore input ptx) prems x.frag x.a = .ok prems' ∧
       PremsQ (expectedStore input ptx) err prems' := by
@@ -297,12 +297,12 @@ theorem discardOverhanging_deep {input ptx : List Scaffold} {err : Int} (hd : De
         rcases hc with e | e
         · rw [e] at hok
           rcases hsid with rfl | rfl
-          · exact quiet_a hd _ hok prems' hq'
-          · exact quiet_b hd _ hok prems' hq'
+          · exact quiet_a hd.base _ hok prems' hq'
+          · exact quiet_b hd.base _ hok prems' hq'
         · rw [e] at hok
           rcases hsid with rfl | rfl
-          · exact quiet_b hd _ hok prems' hq'
-          · exact quiet_a hd _ hok prems' hq'
+          · exact quiet_b hd.base _ hok prems' hq'
+          · exact quiet_a hd.base _ hok prems' hq'
       · intro e he; cases he
     rw [C01.resolverRound_eq]
     simp only [hprems, bind, Except.bind, hstore, herr, fixFold_quiet err _ prems hq [], List.isEmpty_nil, if_true,
